@@ -30,6 +30,7 @@ type Program struct {
 	TagOf  map[string]int
 	Overlay map[string][]byte
 	namedKeys []string
+	Rules     map[string]*DFA
 }
 
 var repoPkgs = []string{"./martian/core", "./martian/syntax", "./martian/util", "./cmd/mrjob", "./cmd/mrp"}
